@@ -4,5 +4,5 @@ INVARIANT Inv FormatRoundTrips
 ACTION_CONSTRAINT Emit
 CONSTANTS
   Family = "lines"
-  MaxLen = 5
-  Rich = FALSE
+  MaxLen = 4
+  Rich = TRUE
